@@ -134,7 +134,7 @@ def main():
             "guard": "GWB_VERIF",
             "enable": "lib/common.py build_repo(): cmake -S /repo -B /verif/_work/build -DCMAKE_CXX_FLAGS='-DGWB_VERIF -Wno-error' (ninja, incremental, from /repo's working tree)",
             "baseline_off_cmd": "cmake --build /repo/_build -j16 && ctest --test-dir /repo/_build -j8 --timeout 900",
-            "source_commits": [],
+            "source_commits": ["1a8b94da"],
             "add_only": True,
         },
         "engines": [{"name": "coq-model+correspondence", "path": "check", "serves_properties": sorted(CHECKS),
